@@ -274,23 +274,43 @@ def fd_unpack_any_000_4_8(data: Bytes, we: Choice(4, 8), ws: W):
     unpack_any_case(data, we, ws, 0, 0, 0)
 
 
-@obligation(["C07", "C09", "C10", "C04"], "FileDataPdu.unpack/any/no-metadata/normal-file/crc/entity-id-width-1", verifies=V_UNPACK)
-def fd_unpack_any_001_1(data: Bytes, we: Choice(1), ws: W):
+@obligation(["C07", "C09", "C10", "C04"], "FileDataPdu.unpack/any/no-metadata/normal-file/crc/entity-id-width-1/seq-num-width-1-2", verifies=V_UNPACK)
+def fd_unpack_any_001_1_1_2(data: Bytes, we: Choice(1), ws: Choice(1, 2)):
     unpack_any_case(data, we, ws, 0, 0, 1)
 
 
-@obligation(["C07", "C09", "C10", "C04"], "FileDataPdu.unpack/any/no-metadata/normal-file/crc/entity-id-width-2", verifies=V_UNPACK)
-def fd_unpack_any_001_2(data: Bytes, we: Choice(2), ws: W):
+@obligation(["C07", "C09", "C10", "C04"], "FileDataPdu.unpack/any/no-metadata/normal-file/crc/entity-id-width-1/seq-num-width-4-8", verifies=V_UNPACK)
+def fd_unpack_any_001_1_4_8(data: Bytes, we: Choice(1), ws: Choice(4, 8)):
     unpack_any_case(data, we, ws, 0, 0, 1)
 
 
-@obligation(["C07", "C09", "C10", "C04"], "FileDataPdu.unpack/any/no-metadata/normal-file/crc/entity-id-width-4", verifies=V_UNPACK)
-def fd_unpack_any_001_4(data: Bytes, we: Choice(4), ws: W):
+@obligation(["C07", "C09", "C10", "C04"], "FileDataPdu.unpack/any/no-metadata/normal-file/crc/entity-id-width-2/seq-num-width-1-2", verifies=V_UNPACK)
+def fd_unpack_any_001_2_1_2(data: Bytes, we: Choice(2), ws: Choice(1, 2)):
     unpack_any_case(data, we, ws, 0, 0, 1)
 
 
-@obligation(["C07", "C09", "C10", "C04"], "FileDataPdu.unpack/any/no-metadata/normal-file/crc/entity-id-width-8", verifies=V_UNPACK)
-def fd_unpack_any_001_8(data: Bytes, we: Choice(8), ws: W):
+@obligation(["C07", "C09", "C10", "C04"], "FileDataPdu.unpack/any/no-metadata/normal-file/crc/entity-id-width-2/seq-num-width-4-8", verifies=V_UNPACK)
+def fd_unpack_any_001_2_4_8(data: Bytes, we: Choice(2), ws: Choice(4, 8)):
+    unpack_any_case(data, we, ws, 0, 0, 1)
+
+
+@obligation(["C07", "C09", "C10", "C04"], "FileDataPdu.unpack/any/no-metadata/normal-file/crc/entity-id-width-4/seq-num-width-1-2", verifies=V_UNPACK)
+def fd_unpack_any_001_4_1_2(data: Bytes, we: Choice(4), ws: Choice(1, 2)):
+    unpack_any_case(data, we, ws, 0, 0, 1)
+
+
+@obligation(["C07", "C09", "C10", "C04"], "FileDataPdu.unpack/any/no-metadata/normal-file/crc/entity-id-width-4/seq-num-width-4-8", verifies=V_UNPACK)
+def fd_unpack_any_001_4_4_8(data: Bytes, we: Choice(4), ws: Choice(4, 8)):
+    unpack_any_case(data, we, ws, 0, 0, 1)
+
+
+@obligation(["C07", "C09", "C10", "C04"], "FileDataPdu.unpack/any/no-metadata/normal-file/crc/entity-id-width-8/seq-num-width-1-2", verifies=V_UNPACK)
+def fd_unpack_any_001_8_1_2(data: Bytes, we: Choice(8), ws: Choice(1, 2)):
+    unpack_any_case(data, we, ws, 0, 0, 1)
+
+
+@obligation(["C07", "C09", "C10", "C04"], "FileDataPdu.unpack/any/no-metadata/normal-file/crc/entity-id-width-8/seq-num-width-4-8", verifies=V_UNPACK)
+def fd_unpack_any_001_8_4_8(data: Bytes, we: Choice(8), ws: Choice(4, 8)):
     unpack_any_case(data, we, ws, 0, 0, 1)
 
 
@@ -304,23 +324,43 @@ def fd_unpack_any_010_4_8(data: Bytes, we: Choice(4, 8), ws: W):
     unpack_any_case(data, we, ws, 0, 1, 0)
 
 
-@obligation(["C07", "C09", "C10", "C04"], "FileDataPdu.unpack/any/no-metadata/large-file/crc/entity-id-width-1", verifies=V_UNPACK)
-def fd_unpack_any_011_1(data: Bytes, we: Choice(1), ws: W):
+@obligation(["C07", "C09", "C10", "C04"], "FileDataPdu.unpack/any/no-metadata/large-file/crc/entity-id-width-1/seq-num-width-1-2", verifies=V_UNPACK)
+def fd_unpack_any_011_1_1_2(data: Bytes, we: Choice(1), ws: Choice(1, 2)):
     unpack_any_case(data, we, ws, 0, 1, 1)
 
 
-@obligation(["C07", "C09", "C10", "C04"], "FileDataPdu.unpack/any/no-metadata/large-file/crc/entity-id-width-2", verifies=V_UNPACK)
-def fd_unpack_any_011_2(data: Bytes, we: Choice(2), ws: W):
+@obligation(["C07", "C09", "C10", "C04"], "FileDataPdu.unpack/any/no-metadata/large-file/crc/entity-id-width-1/seq-num-width-4-8", verifies=V_UNPACK)
+def fd_unpack_any_011_1_4_8(data: Bytes, we: Choice(1), ws: Choice(4, 8)):
     unpack_any_case(data, we, ws, 0, 1, 1)
 
 
-@obligation(["C07", "C09", "C10", "C04"], "FileDataPdu.unpack/any/no-metadata/large-file/crc/entity-id-width-4", verifies=V_UNPACK)
-def fd_unpack_any_011_4(data: Bytes, we: Choice(4), ws: W):
+@obligation(["C07", "C09", "C10", "C04"], "FileDataPdu.unpack/any/no-metadata/large-file/crc/entity-id-width-2/seq-num-width-1-2", verifies=V_UNPACK)
+def fd_unpack_any_011_2_1_2(data: Bytes, we: Choice(2), ws: Choice(1, 2)):
     unpack_any_case(data, we, ws, 0, 1, 1)
 
 
-@obligation(["C07", "C09", "C10", "C04"], "FileDataPdu.unpack/any/no-metadata/large-file/crc/entity-id-width-8", verifies=V_UNPACK)
-def fd_unpack_any_011_8(data: Bytes, we: Choice(8), ws: W):
+@obligation(["C07", "C09", "C10", "C04"], "FileDataPdu.unpack/any/no-metadata/large-file/crc/entity-id-width-2/seq-num-width-4-8", verifies=V_UNPACK)
+def fd_unpack_any_011_2_4_8(data: Bytes, we: Choice(2), ws: Choice(4, 8)):
+    unpack_any_case(data, we, ws, 0, 1, 1)
+
+
+@obligation(["C07", "C09", "C10", "C04"], "FileDataPdu.unpack/any/no-metadata/large-file/crc/entity-id-width-4/seq-num-width-1-2", verifies=V_UNPACK)
+def fd_unpack_any_011_4_1_2(data: Bytes, we: Choice(4), ws: Choice(1, 2)):
+    unpack_any_case(data, we, ws, 0, 1, 1)
+
+
+@obligation(["C07", "C09", "C10", "C04"], "FileDataPdu.unpack/any/no-metadata/large-file/crc/entity-id-width-4/seq-num-width-4-8", verifies=V_UNPACK)
+def fd_unpack_any_011_4_4_8(data: Bytes, we: Choice(4), ws: Choice(4, 8)):
+    unpack_any_case(data, we, ws, 0, 1, 1)
+
+
+@obligation(["C07", "C09", "C10", "C04"], "FileDataPdu.unpack/any/no-metadata/large-file/crc/entity-id-width-8/seq-num-width-1-2", verifies=V_UNPACK)
+def fd_unpack_any_011_8_1_2(data: Bytes, we: Choice(8), ws: Choice(1, 2)):
+    unpack_any_case(data, we, ws, 0, 1, 1)
+
+
+@obligation(["C07", "C09", "C10", "C04"], "FileDataPdu.unpack/any/no-metadata/large-file/crc/entity-id-width-8/seq-num-width-4-8", verifies=V_UNPACK)
+def fd_unpack_any_011_8_4_8(data: Bytes, we: Choice(8), ws: Choice(4, 8)):
     unpack_any_case(data, we, ws, 0, 1, 1)
 
 
@@ -344,23 +384,43 @@ def fd_unpack_any_100_8(data: Bytes, we: Choice(8), ws: W):
     unpack_any_case(data, we, ws, 1, 0, 0)
 
 
-@obligation(["C07", "C09", "C10", "C04"], "FileDataPdu.unpack/any/metadata/normal-file/crc/entity-id-width-1", verifies=V_UNPACK)
-def fd_unpack_any_101_1(data: Bytes, we: Choice(1), ws: W):
+@obligation(["C07", "C09", "C10", "C04"], "FileDataPdu.unpack/any/metadata/normal-file/crc/entity-id-width-1/seq-num-width-1-2", verifies=V_UNPACK)
+def fd_unpack_any_101_1_1_2(data: Bytes, we: Choice(1), ws: Choice(1, 2)):
     unpack_any_case(data, we, ws, 1, 0, 1)
 
 
-@obligation(["C07", "C09", "C10", "C04"], "FileDataPdu.unpack/any/metadata/normal-file/crc/entity-id-width-2", verifies=V_UNPACK)
-def fd_unpack_any_101_2(data: Bytes, we: Choice(2), ws: W):
+@obligation(["C07", "C09", "C10", "C04"], "FileDataPdu.unpack/any/metadata/normal-file/crc/entity-id-width-1/seq-num-width-4-8", verifies=V_UNPACK)
+def fd_unpack_any_101_1_4_8(data: Bytes, we: Choice(1), ws: Choice(4, 8)):
     unpack_any_case(data, we, ws, 1, 0, 1)
 
 
-@obligation(["C07", "C09", "C10", "C04"], "FileDataPdu.unpack/any/metadata/normal-file/crc/entity-id-width-4", verifies=V_UNPACK)
-def fd_unpack_any_101_4(data: Bytes, we: Choice(4), ws: W):
+@obligation(["C07", "C09", "C10", "C04"], "FileDataPdu.unpack/any/metadata/normal-file/crc/entity-id-width-2/seq-num-width-1-2", verifies=V_UNPACK)
+def fd_unpack_any_101_2_1_2(data: Bytes, we: Choice(2), ws: Choice(1, 2)):
     unpack_any_case(data, we, ws, 1, 0, 1)
 
 
-@obligation(["C07", "C09", "C10", "C04"], "FileDataPdu.unpack/any/metadata/normal-file/crc/entity-id-width-8", verifies=V_UNPACK)
-def fd_unpack_any_101_8(data: Bytes, we: Choice(8), ws: W):
+@obligation(["C07", "C09", "C10", "C04"], "FileDataPdu.unpack/any/metadata/normal-file/crc/entity-id-width-2/seq-num-width-4-8", verifies=V_UNPACK)
+def fd_unpack_any_101_2_4_8(data: Bytes, we: Choice(2), ws: Choice(4, 8)):
+    unpack_any_case(data, we, ws, 1, 0, 1)
+
+
+@obligation(["C07", "C09", "C10", "C04"], "FileDataPdu.unpack/any/metadata/normal-file/crc/entity-id-width-4/seq-num-width-1-2", verifies=V_UNPACK)
+def fd_unpack_any_101_4_1_2(data: Bytes, we: Choice(4), ws: Choice(1, 2)):
+    unpack_any_case(data, we, ws, 1, 0, 1)
+
+
+@obligation(["C07", "C09", "C10", "C04"], "FileDataPdu.unpack/any/metadata/normal-file/crc/entity-id-width-4/seq-num-width-4-8", verifies=V_UNPACK)
+def fd_unpack_any_101_4_4_8(data: Bytes, we: Choice(4), ws: Choice(4, 8)):
+    unpack_any_case(data, we, ws, 1, 0, 1)
+
+
+@obligation(["C07", "C09", "C10", "C04"], "FileDataPdu.unpack/any/metadata/normal-file/crc/entity-id-width-8/seq-num-width-1-2", verifies=V_UNPACK)
+def fd_unpack_any_101_8_1_2(data: Bytes, we: Choice(8), ws: Choice(1, 2)):
+    unpack_any_case(data, we, ws, 1, 0, 1)
+
+
+@obligation(["C07", "C09", "C10", "C04"], "FileDataPdu.unpack/any/metadata/normal-file/crc/entity-id-width-8/seq-num-width-4-8", verifies=V_UNPACK)
+def fd_unpack_any_101_8_4_8(data: Bytes, we: Choice(8), ws: Choice(4, 8)):
     unpack_any_case(data, we, ws, 1, 0, 1)
 
 
@@ -384,23 +444,43 @@ def fd_unpack_any_110_8(data: Bytes, we: Choice(8), ws: W):
     unpack_any_case(data, we, ws, 1, 1, 0)
 
 
-@obligation(["C07", "C09", "C10", "C04"], "FileDataPdu.unpack/any/metadata/large-file/crc/entity-id-width-1", verifies=V_UNPACK)
-def fd_unpack_any_111_1(data: Bytes, we: Choice(1), ws: W):
+@obligation(["C07", "C09", "C10", "C04"], "FileDataPdu.unpack/any/metadata/large-file/crc/entity-id-width-1/seq-num-width-1-2", verifies=V_UNPACK)
+def fd_unpack_any_111_1_1_2(data: Bytes, we: Choice(1), ws: Choice(1, 2)):
     unpack_any_case(data, we, ws, 1, 1, 1)
 
 
-@obligation(["C07", "C09", "C10", "C04"], "FileDataPdu.unpack/any/metadata/large-file/crc/entity-id-width-2", verifies=V_UNPACK)
-def fd_unpack_any_111_2(data: Bytes, we: Choice(2), ws: W):
+@obligation(["C07", "C09", "C10", "C04"], "FileDataPdu.unpack/any/metadata/large-file/crc/entity-id-width-1/seq-num-width-4-8", verifies=V_UNPACK)
+def fd_unpack_any_111_1_4_8(data: Bytes, we: Choice(1), ws: Choice(4, 8)):
     unpack_any_case(data, we, ws, 1, 1, 1)
 
 
-@obligation(["C07", "C09", "C10", "C04"], "FileDataPdu.unpack/any/metadata/large-file/crc/entity-id-width-4", verifies=V_UNPACK)
-def fd_unpack_any_111_4(data: Bytes, we: Choice(4), ws: W):
+@obligation(["C07", "C09", "C10", "C04"], "FileDataPdu.unpack/any/metadata/large-file/crc/entity-id-width-2/seq-num-width-1-2", verifies=V_UNPACK)
+def fd_unpack_any_111_2_1_2(data: Bytes, we: Choice(2), ws: Choice(1, 2)):
     unpack_any_case(data, we, ws, 1, 1, 1)
 
 
-@obligation(["C07", "C09", "C10", "C04"], "FileDataPdu.unpack/any/metadata/large-file/crc/entity-id-width-8", verifies=V_UNPACK)
-def fd_unpack_any_111_8(data: Bytes, we: Choice(8), ws: W):
+@obligation(["C07", "C09", "C10", "C04"], "FileDataPdu.unpack/any/metadata/large-file/crc/entity-id-width-2/seq-num-width-4-8", verifies=V_UNPACK)
+def fd_unpack_any_111_2_4_8(data: Bytes, we: Choice(2), ws: Choice(4, 8)):
+    unpack_any_case(data, we, ws, 1, 1, 1)
+
+
+@obligation(["C07", "C09", "C10", "C04"], "FileDataPdu.unpack/any/metadata/large-file/crc/entity-id-width-4/seq-num-width-1-2", verifies=V_UNPACK)
+def fd_unpack_any_111_4_1_2(data: Bytes, we: Choice(4), ws: Choice(1, 2)):
+    unpack_any_case(data, we, ws, 1, 1, 1)
+
+
+@obligation(["C07", "C09", "C10", "C04"], "FileDataPdu.unpack/any/metadata/large-file/crc/entity-id-width-4/seq-num-width-4-8", verifies=V_UNPACK)
+def fd_unpack_any_111_4_4_8(data: Bytes, we: Choice(4), ws: Choice(4, 8)):
+    unpack_any_case(data, we, ws, 1, 1, 1)
+
+
+@obligation(["C07", "C09", "C10", "C04"], "FileDataPdu.unpack/any/metadata/large-file/crc/entity-id-width-8/seq-num-width-1-2", verifies=V_UNPACK)
+def fd_unpack_any_111_8_1_2(data: Bytes, we: Choice(8), ws: Choice(1, 2)):
+    unpack_any_case(data, we, ws, 1, 1, 1)
+
+
+@obligation(["C07", "C09", "C10", "C04"], "FileDataPdu.unpack/any/metadata/large-file/crc/entity-id-width-8/seq-num-width-4-8", verifies=V_UNPACK)
+def fd_unpack_any_111_8_4_8(data: Bytes, we: Choice(8), ws: Choice(4, 8)):
     unpack_any_case(data, we, ws, 1, 1, 1)
 
 
